@@ -203,3 +203,38 @@ func VerifC07_ConcurrentCAS() {
 		zz.Reach("both advanced")
 	}
 }
+
+// VerifC07_ConcurrentFirstReports: two reporters race on a cache that has NOT been seeded yet
+// (start of a transfer, or right after a process restart): the lazy seeding from the durable
+// index (double-checked under the cache lock) must hand both the same counter, so equal positions
+// are still counted at most once and the mark ends at the maximum.
+//
+//verif:opts preempt=sync sched=9 fuel=8 preemptfn=(*github.com/filecoin-project/go-data-transfer/v2/channels.blockIndexCache).updateIfGreater,(*github.com/filecoin-project/go-data-transfer/v2/channels.blockIndexCache).getValue
+func VerifC07_ConcurrentFirstReports() {
+	bic := newBlockIndexCache()
+	chid := datatransfer.ChannelID{Initiator: peerID("a"), Responder: peerID("b"), ID: 1}
+	seed := zz.Int64("seed")
+	reads := 0
+	read := func(datatransfer.ChannelID) (int64, error) { reads++; zz.Preempt(); return seed, nil }
+	i1, i2 := zz.Int64("i1"), zz.Int64("i2")
+	var r1, r2 bool
+	done := make(chan struct{}, 2)
+	go func() { r1, _ = bic.updateIfGreater(datatransfer.DataSent, chid, i1, read); done <- struct{}{} }()
+	go func() { r2, _ = bic.updateIfGreater(datatransfer.DataSent, chid, i2, read); done <- struct{}{} }()
+	<-done
+	<-done
+	final, _ := bic.getValue(datatransfer.DataSent, chid, read)
+	max := seed
+	if i1 > max {
+		max = i1
+	}
+	if i2 > max {
+		max = i2
+	}
+	zz.Assert(*final == max, "high-water mark ends at the maximum")
+	zz.Assert(!(i1 == i2 && r1 && r2), "equal positions are counted at most once, also while the cache is being seeded")
+	zz.Assert(!r1 || i1 > seed, "a report wins only if it is above the durable index")
+	zz.Assert(!r2 || i2 > seed, "a report wins only if it is above the durable index")
+	zz.Assert(max == seed || r1 || r2, "some report that advanced the mark wins")
+	zz.Reach("done")
+}
